@@ -47,17 +47,17 @@ CLAIMS = {
          "MIR dataflow + polynomial identity of seed indices + iterator-shape matching", True),
 
  "C11": ("other",
-         "On MIR of every HAL shape function of the reference and AVX crates (operands paired with their *_col argument): overwrite-type operations hand every limb of [0, res.size()) to a kernel on every returning path - decided exactly by evaluating the min/max range bounds over every ordering of the operand sizes (148 functions covered, 18 outside the limb-range idiom listed as undecided); a conditional limb write needs another write for the same limb; every accessor on operand X uses column X_col (371 sites, polynomial identity); no store goes through a pointer derived from a read-only operand; core noise-free operations write every result column; raw-slice kernels taking limb_offset zero-fill from exactly one stride after the last written limb (WR-4); thorough tier: compile-fail witness that a read-only view cannot hand out mutable limbs. Bytes inside a limb (kernel contracts) are not decided.",
+         "On MIR of every HAL shape function of the reference and AVX crates (operands paired with their *_col argument): overwrite-type operations hand every limb of [0, res.size()) to a kernel on every returning path - decided exactly by evaluating the min/max range bounds over every ordering of the operand sizes (148 functions covered, 18 outside the limb-range idiom listed as undecided); a conditional limb write needs another write for the same limb; every accessor on operand X uses column X_col (371 sites, polynomial identity); no store goes through a pointer derived from a read-only operand; core noise-free operations write every result column; raw-slice kernels taking limb_offset zero-fill from exactly one stride after the last written limb (WR-4); every mutable use of a column-selected output operand is column-selective (WR-5); carry buffers of the shift / normalisation functions are written before they are read on every feasible path, zero-trip loops included (WR-6); core operations read an operand only at columns below its own rank + 1 (COL-2); thorough tier: compile-fail witness that a read-only view cannot hand out mutable limbs. Bytes inside a limb (kernel contracts) are not decided.",
          "DESIGN.md §3 C11, §8",
          "Trusted: kernels write the whole limb slice they are given; unknown guards are assumed falsifiable.",
          "MIR loop/range extraction + exact min/max lattice evaluation of limb coverage + column polynomial identity", True),
  "C09": ("other",
-         "Only the size rule of C09 (extra result limbs zero, extra operand limbs ignored, exact column) is decided: WR-1/WR-2 restricted to the C09 anchor files and agreement of the small / FFT64-big / NTT120-big implementations on their coverage verdict, plus two sign-discipline clauses: in res = a - b families a write from b alone negates and a write from a alone does not (SIGN-1), and a negacyclic split kernel's one-polarity path is decided by the residue modulo 2N (SIGN-2). Index maps mod 2N, group laws, split/merge are not decided.",
+         "Only the size rule of C09 (extra result limbs zero, extra operand limbs ignored, exact column) is decided: WR-1/WR-2 restricted to the C09 anchor files and agreement of the small / FFT64-big / NTT120-big implementations on their coverage verdict, plus two sign-discipline clauses: in res = a - b families a write from b alone negates and a write from a alone does not (SIGN-1), and a negacyclic split kernel's one-polarity path, and any skip of a rotation kernel, is decided by the residue of the exponent modulo 2N (SIGN-2). Index maps mod 2N, group laws, split/merge are not decided.",
          "DESIGN.md §3 C02 and C09, §8",
          "Trusted: per-limb kernels compute the ring map.",
          "shared limb-coverage / column analysis restricted to the C09 files + sibling verdict comparison", True),
  "C02": ("other",
-         "Only the shape clause of C02 is decided: result columns of the noise-free GLWE operations are all written (COL-1, over every rank assignment of a grid), the underlying shape functions cover every limb and honour columns (WR-1/WR-2 on the C02 files), each in-place variant uses the in-place twins of its out-of-place sibling's HAL operations (SIB-1), and the operand-sign discipline of the add/sub families holds for mixed ranks (SIGN-1). Phase linearity is arithmetic and not decided.",
+         "Only the shape clause of C02 is decided: result columns of the noise-free GLWE operations are all written (COL-1, over every rank assignment of a grid), the underlying shape functions cover every limb and honour columns (WR-1/WR-2 on the C02 files), each in-place variant uses the in-place twins of its out-of-place sibling's HAL operations (SIB-1), and the operand-sign discipline of the add/sub families holds for mixed ranks (SIGN-1), the in-place negating forms visit every column of the result (COL-1) and read operands are indexed within their own rank (COL-2). Phase linearity is arithmetic and not decided.",
          "DESIGN.md §3 C02 and C09, §8",
          "Trusted: HAL kernels; asserted rank preconditions.",
          "shared limb/column coverage analysis + call-set comparison of assign twins", True),
@@ -69,7 +69,7 @@ CLAIMS = {
          "max-plus symbolic accounting over MIR paths + path-sensitive typestate of scratch temporaries", True),
 
  "C16": ("other",
-         "Metadata-write and error-path discipline of the CKKS layer on MIR: CKKSMeta is written only by the owning modules (78 sites); every usize subtraction of budget/precision accessors is dominated by a comparison establishing minuend >= subtrahend over the same value numbers (or is one of two reasoned table exceptions); automorphism-key lookups and checked budget arithmetic are never unwrapped; every out-of-place `*_into*` operation defines both dst.meta fields on every success return (interprocedural summary over 60 operations through delegates and backend impls); an equality fast path and the ordering branches following it compare the same pair of quantities. Slot values, error magnitudes and log_delta+log_budget <= max_k are not decided.",
+         "Metadata-write and error-path discipline of the CKKS layer on MIR: CKKSMeta is written only by the owning modules (78 sites); every usize subtraction of budget/precision accessors is dominated by a comparison establishing minuend >= subtrahend over the same value numbers (or is one of two reasoned table exceptions); automorphism-key lookups and checked budget arithmetic are never unwrapped; every out-of-place `*_into*` operation defines both dst.meta fields on every success return (interprocedural summary over 60 operations through delegates and backend impls); an equality fast path and the ordering branches following it compare the same pair of quantities; the parameter derivation of ct x ct multiplication is invariant under exchanging the operands (CK-6). Slot values, error magnitudes and log_delta+log_budget <= max_k are not decided.",
          "DESIGN.md §3 C16",
          "Trusted: poulpy-core shape asserts are outside the property; metadata need not be untouched on Err.",
          "MIR dominator-based guard analysis + interprocedural must-define summary + comparison-chain consistency", True),
